@@ -403,6 +403,7 @@ impl<'a> Ptr<'a> {
         #[cfg(feature = "verif-hooks")]
         crate::verif::ev("store.remove", || {
             vec![
+                self.verif_serial,
                 u32::from(self.key.stream_id) as i64,
                 isize::from(self.send_flow.available()) as i64,
                 isize::from(self.recv_flow.available()) as i64,
